@@ -909,12 +909,19 @@ End Expand.
 
 (* ------------------------------------------------------------------------- *)
 (* Part 4: the printer                                                        *)
+(* strings and quoted symbols: no two dots in a row (a single dot also at the
+   end: the closing quote follows).  Only three dots in a row are misread by
+   the checker (finding ellipsis-in-string-before-range, D28); two are excluded
+   with them because the lemma on the checker's search (find_ell_skip) is
+   stated for texts in which a dot is followed by another character. *)
+Definition sdotsv (s : list Z) : Prop := sdots (s ++ [34]).
+
 Definition goodc0 (v : av) : Prop :=
   match v with
   | VI i => small_k KI i | VH h => small_k KH h | VC c => small_k KC c
   | VT | VF | VN | VInf => True
-  | VS s => nonul s /\ nodot s
-  | VSym s => nonul s /\ sym_plain s = false /\ nodot s
+  | VS s => nonul s /\ sdotsv s
+  | VSym s => nonul s /\ sym_plain s = false /\ sdotsv s
   | VM a b c d => good_midi a b c d
   | VR v => good_rgba v
   | _ => False
@@ -977,6 +984,16 @@ Proof.
     + split; [exact I|]. split; [|exact I]. split; [exact Hb|]. split; [now apply finite_notnan32|exact Hz].
     + split; [exact I|]. split; [|exact I]. split; [exact Hb|]. split; [now apply finite_notnan64|exact Hz].
 Qed.
+(* a slot of a list of such values and arrays of them *)
+Definition goodca (o : popts) (zf zd : Z) (v : av) : Prop :=
+  goodc o zf zd v \/ (exists ty n, v = VArr ty n) \/ exists y, v = VSpc y.
+Lemma goodca_sa o zf zd v : goodca o zf zd v -> sa v.
+Proof. intros [H|[(ty & n & ->)|(y & ->)]]; [apply scalar_sa; apply (goodc_facts o zf zd v H)|exact I|exact I]. Qed.
+Lemma goodca_inrv o zf zd v : goodca o zf zd v -> inrv zf zd v.
+Proof. intros [H|[(ty & n & ->)|(y & ->)]]; [apply (goodc_facts o zf zd v H)|exact I|exact I]. Qed.
+Lemma goodca_mk o zf zd k z : goodca o zf zd (mk k z) -> goodc o zf zd (mk k z).
+Proof. intros [H|[(ty & n & E)|(y & E)]]; [exact H|destruct k; discriminate|destruct k; discriminate]. Qed.
+
 Lemma goodc_mk o zf zd k z : goodc o zf zd (mk k z) -> small_k k z.
 Proof. intros [H|[H|[_ H]]]; destruct k; cbn in H; tauto. Qed.
 
@@ -988,6 +1005,10 @@ Lemma types_match_kind pv k b : scalar pv ->
   types_match (av_type pv) (av_type (mk k b)) = (av_type pv =? av_type (mk k b)).
 Proof. intros _. unfold types_match. destruct k; cbn; destruct (av_type pv =? _) eqn:E; try reflexivity; lia. Qed.
 
+Lemma types_match_kind' pv k b :
+  types_match (av_type pv) (av_type (mk k b)) = (av_type pv =? av_type (mk k b)).
+Proof. unfold types_match. destruct k; cbn; destruct (av_type pv =? _) eqn:E; try reflexivity; lia. Qed.
+
 Lemma pav_scalar o v rest cols prev f : scalar v ->
   print_arg_val_f (S f) o (v :: rest) cols prev =
   match print_scalar o v cols with Some (t, w, c) => Some (t, w, c, false) | None => None end.
@@ -998,33 +1019,32 @@ Lemma pavf_rep o n h r cols prev f :
   = print_range (print_arg_val_f f) (print_arr_f f) o (VRep n h :: r) cols prev.
 Proof. reflexivity. Qed.
 
-Lemma print_range_const o n a0 y0 cols prev t w c' :
+Lemma print_range_const fu o n a0 y0 cols prev t w c' :
   compress o = true -> 0 < n -> scalar a0 ->
   print_scalar o a0 (cols + len (print_d n ++ [120])) = Some (t, w, c') ->
-  print_arg_val o [VRep n 0; a0; VSpc y0] cols prev
+  print_arg_val_f (S (S fu)) o [VRep n 0; a0; VSpc y0] cols prev
   = Some ((print_d n ++ [120]) ++ t, len (print_d n ++ [120]) + w, c', false).
 Proof.
-  intros Hon Hn Hs Hp. unfold print_arg_val. rewrite pavf_rep. unfold print_range. cbv beta iota.
+  intros Hon Hn Hs Hp. rewrite pavf_rep. unfold print_range. cbv beta iota.
   rewrite Hon. replace (n =? 0) with false by lia. cbn [negb orb Z.eqb].
   assert (Hm : forall (A : Type) (x y : A), match a0 :: [VSpc y0] with VArr _ _ :: _ => x | _ => y end = y)
     by (intros; destruct a0; cbn in Hs; try contradiction; reflexivity).
-  rewrite Hm. rewrite (pav_scalar o a0 _ _ None 4 Hs), Hp. reflexivity.
+  rewrite Hm. rewrite (pav_scalar o a0 _ _ None fu Hs), Hp. reflexivity.
 Qed.
 
 Definition notconf (prev : option av) (k : ikind) (x : Z) : Prop :=
   match prev with None => True | Some p => av_type p <> av_type (mk k x) \/ p = mk k x end.
 
-Lemma print_range_delta o k d x n y cols prev last :
+Lemma print_range_delta fu o k d x n y cols prev last :
   compress o = true -> 2 <= n < 2 ^ 31 -> d <> 0 ->
   wr k (x + 1 * d) = x + d -> wr k (x + (n - 1) * d) = last ->
-  (forall p, prev = Some p -> scalar p) ->
   exists sp t c',
     (sp = [32] \/ sp = nl4) /\
-    print_arg_val o [VRep n 1; mk k d; mk k x; VSpc y] cols prev = Some (t, len t, c', false) /\
+    print_arg_val_f (S (S fu)) o [VRep n 1; mk k d; mk k x; VSpc y] cols prev = Some (t, len t, c', false) /\
     (t = tail_text k x last sp /\ (d = 1 \/ d = -1) /\ notconf prev k x \/
      t = tok_k k x ++ [32] ++ tail_text k (x + d) last sp).
 Proof.
-  intros Hon Hn Hd0 Hsec Hlast Hprev. unfold print_arg_val. rewrite pavf_rep. unfold print_range. cbv beta iota.
+  intros Hon Hn Hd0 Hsec Hlast. rewrite pavf_rep. unfold print_range. cbv beta iota.
   rewrite Hon. replace (n =? 0) with false by lia. cbn [negb orb]. replace (1 =? 0) with false by reflexivity.
   cbn [negb]. rewrite pav_mk, !from_int_mk, !eq_mk.
   rewrite !range_arg_mk by lia. rewrite Hsec, Hlast.
@@ -1038,7 +1058,7 @@ Proof.
      | None => Some false end = Some cf /\ (cf = false -> notconf prev k x)).
   { destruct prev as [p|]; [|exists false; split; [reflexivity|intros _; exact I]].
     destruct (av_type p =? av_type (mk k x)) eqn:Et.
-    - apply Z.eqb_eq in Et. destruct (type_mk_inj k x p (Hprev p eq_refl) Et) as (a & ->).
+    - apply Z.eqb_eq in Et. destruct (type_mk_inj' k x p Et) as (a & ->).
       rewrite eq_mk. exists (negb (x =? a)). split; [reflexivity|]. intros Hf. right.
       apply negb_false_iff, Z.eqb_eq in Hf. now subst.
     - exists false. split; [reflexivity|]. intros _. left. now apply Z.eqb_neq. }
@@ -1079,6 +1099,60 @@ Proof.
   cbn [andb negb]. destruct (c =? 34); intros H; inversion H; lia.
 Qed.
 
+(* the text of a quoted string keeps the property: a line break between two
+   characters and the escapes bring no dots *)
+Lemma print_chars_hd ll c s cols X : c <> 46 ->
+  exists x r, fst (print_chars false ll (c :: s) cols) ++ X = x :: r /\ x <> 46.
+Proof.
+  intros Hc. cbn [print_chars negb andb].
+  destruct (ll - 3 <? cols); destruct (as_escaped_char c false) as [e|]; try destruct (e =? 110);
+    repeat match goal with
+           | |- context [print_chars false ll s ?k] => destruct (print_chars false ll s k) as [? ?]
+           end; cbn [fst app brk]; eexists _, _; (split; [reflexivity|lia]).
+Qed.
+
+Lemma sdots_inv_dot l : sdots (46 :: l) -> exists c r, l = c :: r /\ c <> 46 /\ sdots (c :: r).
+Proof. intros H. inversion H; subst; [congruence|eauto]. Qed.
+Lemma sdots_inv_other c l : sdots (c :: l) -> c <> 46 -> sdots l.
+Proof. intros H Hc. inversion H; subst; [assumption|congruence]. Qed.
+
+Lemma print_chars_sdots ll s : forall cols, sdots (s ++ [34]) -> sdots (fst (print_chars false ll s cols) ++ [34]).
+Proof.
+  induction s as [|c s IH]; intros cols Hs; [exact Hs|].
+  assert (Hb : sdots brk) by (apply nodot_sdots; repeat constructor; lia).
+  cbn [app] in Hs. destruct (Z.eq_dec c 46) as [->|Hc].
+  2: { (* no dot: break, character or escape, the rest *)
+    pose proof (sdots_inv_other _ _ Hs Hc) as Hs'.
+    cbn [print_chars negb andb].
+    destruct (ll - 3 <? cols); destruct (as_escaped_char c false) as [e|] eqn:Ee;
+      try (pose proof (esc_str_ne _ _ Ee)); try destruct (e =? 110);
+      repeat match goal with
+             | |- context [print_chars false ll s ?k] =>
+                 let H := fresh "Hk" in pose proof (IH k Hs') as H; destruct (print_chars false ll s k) as [? ?]
+             end; cbn [fst] in *; rewrite <- ?app_assoc;
+      repeat (apply sdots_app; [first [exact Hb|apply nodot_sdots; repeat constructor; lia]|]); assumption. }
+  (* a dot: the next character is no dot *)
+  destruct (sdots_inv_dot _ Hs) as (c1 & r1 & E & Hc1 & Hs').
+  - destruct s as [|c' s']; cbn [app] in E.
+    + inversion E; subst. cbn [print_chars negb andb]. change (as_escaped_char 46 false) with (@None Z).
+      destruct (ll - 3 <? cols); cbn [fst app]; rewrite <- ?app_assoc;
+        [apply sdots_app; [exact Hb|]|]; cbn [app]; (apply sd_dot; [lia|repeat constructor; lia]).
+    + inversion E; subst c1 r1.
+      assert (Hnext : forall k, exists x r, fst (print_chars false ll (c' :: s') k) ++ [34] = x :: r /\ x <> 46 /\
+                                           sdots (x :: r)).
+      { intros k. destruct (print_chars_hd ll c' s' k [34] Hc1) as (x & r & Ex & Hx).
+        exists x, r. split; [exact Ex|]. split; [exact Hx|]. rewrite <- Ex. apply IH. exact Hs'. }
+      set (s2 := c' :: s') in *.
+      cbn [print_chars negb andb]. change (as_escaped_char 46 false) with (@None Z).
+      destruct (ll - 3 <? cols).
+      * destruct (Hnext (5 + 1)) as (x & r & Ex & Hx & Hsx).
+        destruct (print_chars false ll s2 (5 + 1)) as [t1 k1]. cbn [fst] in *.
+        rewrite <- !app_assoc. apply sdots_app; [exact Hb|]. cbn [app]. rewrite Ex. now apply sd_dot.
+      * destruct (Hnext (cols + 1)) as (x & r & Ex & Hx & Hsx).
+        destruct (print_chars false ll s2 (cols + 1)) as [t1 k1]. cbn [fst] in *.
+        cbn [app]. rewrite Ex. now apply sd_dot.
+Qed.
+
 Lemma print_chars_nodot ll s : forall cols, nodot s -> nodot (fst (print_chars false ll s cols)).
 Proof.
   induction s as [|c s IH]; intros cols Hs; [constructor|].
@@ -1108,28 +1182,29 @@ Variables dec2f dec2d : list Z -> Z.
 
 Lemma goodc0_tok o v cols t w c :
   goodc0 v -> print_scalar o v cols = Some (t, w, c) ->
-  tokof dec2f dec2d v t /\ nodot t /\ w = len t.
+  tokof dec2f dec2d v t /\ sdots t /\ w = len t.
 Proof.
   intros Hg Hp. destruct (scalar_tok dec2f dec2d o v cols t w c (goodc0_good v Hg) Hp) as [Htk Hw].
   split; [exact Htk|]. split; [|exact Hw].
   destruct v; cbn [goodc0] in Hg; try contradiction; cbn in Hp.
-  - inversion Hp; subst. exact (proj1 (tok_k_chars KI i Hg)).
-  - inversion Hp; subst. exact (proj1 (tok_k_chars KH h Hg)).
-  - inversion Hp; subst. exact (proj1 (tok_k_chars KC c0 Hg)).
-  - inversion Hp; subst. repeat constructor; lia.
-  - inversion Hp; subst. repeat constructor; lia.
-  - inversion Hp; subst. repeat constructor; lia.
-  - inversion Hp; subst. repeat constructor; lia.
+  - inversion Hp; subst. exact (nodot_sdots _ (proj1 (tok_k_chars KI i Hg))).
+  - inversion Hp; subst. exact (nodot_sdots _ (proj1 (tok_k_chars KH h Hg))).
+  - inversion Hp; subst. exact (nodot_sdots _ (proj1 (tok_k_chars KC c0 Hg))).
+  - inversion Hp; subst. apply nodot_sdots. repeat constructor; lia.
+  - inversion Hp; subst. apply nodot_sdots. repeat constructor; lia.
+  - inversion Hp; subst. apply nodot_sdots. repeat constructor; lia.
+  - inversion Hp; subst. apply nodot_sdots. repeat constructor; lia.
   - destruct Hg as [_ Hnd]. unfold print_string in Hp. cbn [andb] in Hp.
-    pose proof (print_chars_nodot (linelength o) s (cols + 1) Hnd) as Hb.
+    pose proof (print_chars_sdots (linelength o) s (cols + 1) Hnd) as Hb.
     destruct (print_chars false (linelength o) s (cols + 1)) as [body c1]. inversion Hp; subst. cbn [fst] in Hb.
-    constructor; [lia|]. apply Forall_app. split; [assumption|repeat constructor; lia].
+    apply sd_other; [lia|exact Hb].
   - destruct Hg as (_ & Hpl & Hnd). unfold print_string in Hp. rewrite Hpl in Hp. cbn [andb] in Hp.
-    pose proof (print_chars_nodot (linelength o) s (cols + 1) Hnd) as Hb.
+    pose proof (print_chars_sdots (linelength o) s (cols + 1) Hnd) as Hb.
     destruct (print_chars false (linelength o) s (cols + 1)) as [body c1]. inversion Hp; subst. cbn [fst] in Hb.
-    constructor; [lia|]. apply Forall_app. split; [assumption|repeat constructor; lia].
-  - inversion Hp; subst. repeat constructor; try lia; apply hexdig_ne46.
-  - inversion Hp; subst. repeat constructor; try lia; apply hexdig_ne46.
+    apply sd_other; [lia|]. change (body ++ [34; 83]) with (body ++ [34] ++ [83]). rewrite app_assoc.
+    apply sdots_app; [exact Hb|apply nodot_sdots; repeat constructor; lia].
+  - inversion Hp; subst. apply nodot_sdots. repeat constructor; try lia; apply hexdig_ne46.
+  - inversion Hp; subst. apply nodot_sdots. repeat constructor; try lia; apply hexdig_ne46.
 Qed.
 
 Lemma goodc_tok o zf zd v cols t w c :
@@ -1137,7 +1212,7 @@ Lemma goodc_tok o zf zd v cols t w c :
   tokof dec2f dec2d v t /\ sdots t /\ w = len t.
 Proof.
   intros [Hg|[Hg|[Hl Hg]]] Hp.
-  - destruct (goodc0_tok o v cols t w c Hg Hp) as (A & B & C). split; [exact A|]. split; [now apply nodot_sdots|exact C].
+  - exact (goodc0_tok o v cols t w c Hg Hp).
   - destruct v; cbn [goodx] in Hg; try contradiction; cbn [print_scalar] in Hp.
     + (* a bare symbol *)
       destruct (sym_plain_facts s Hg) as (c0 & r0 & Es & Hc0 & Hs & _).
@@ -1201,9 +1276,9 @@ Definition iter_text (p : option av) (its : list item) (t : list Z) : Prop :=
   | _ => False
   end.
 
-Lemma print_range_const_eq n a0 y cols prev :
+Lemma print_range_const_eq fu n a0 y cols prev :
   0 < n -> scalar a0 ->
-  print_arg_val o [VRep n 0; a0; VSpc y] cols prev =
+  print_arg_val_f (S (S fu)) o [VRep n 0; a0; VSpc y] cols prev =
   match print_scalar o a0 (cols + len (dec_nat n ++ [120])) with
   | Some (t, w, c') => Some ((dec_nat n ++ [120]) ++ t, len (dec_nat n ++ [120]) + w, c', false)
   | None => None end.
@@ -1211,42 +1286,49 @@ Proof.
   intros Hn Hs. assert (Ed : print_d n = dec_nat n) by (unfold print_d; now replace (n <? 0) with false by lia).
   destruct (print_scalar o a0 (cols + len (dec_nat n ++ [120]))) as [[[t w] c']|] eqn:E.
   - rewrite <- Ed in *. now apply print_range_const.
-  - unfold print_arg_val. rewrite pavf_rep. unfold print_range. cbv beta iota.
+  - rewrite pavf_rep. unfold print_range. cbv beta iota.
     rewrite Hon. replace (n =? 0) with false by lia. cbn [negb orb Z.eqb].
     assert (Hm : forall (A : Type) (x z : A), match a0 :: [VSpc y] with VArr _ _ :: _ => x | _ => z end = z)
       by (intros; destruct a0; cbn in Hs; try contradiction; reflexivity).
-    rewrite Hm. rewrite (pav_scalar o a0 _ _ None 4 Hs). rewrite Ed, E. reflexivity.
+    rewrite Hm. rewrite (pav_scalar o a0 _ _ None fu Hs). rewrite Ed, E. reflexivity.
 Qed.
 
-Lemma print_iter a0 rest size prev t tmp cols cols1 bb cv :
-  Forall (goodc o zf zd) (a0 :: rest) -> Z.of_nat (length (a0 :: rest)) < 2 ^ 31 ->
-  (forall p, prev = Some p -> scalar p) ->
+Definition first_notconf (prev : option av) (its : list item) : Prop :=
+  match its with
+  | ITail k b d m _ _ :: _ => notconf prev k b /\ unit_step d m
+  | _ => True
+  end.
+
+Lemma print_iter_sa fu a0 rest size prev t tmp cols cols1 bb cv :
+  goodc o zf zd a0 -> Forall (goodca o zf zd) rest -> Z.of_nat (length (a0 :: rest)) < 2 ^ 31 ->
   convert_to_range o (a0 :: rest) size = cv -> cv <> CUnmod ->
-  print_arg_val o (match cv with CYes c _ => c | _ => a0 :: rest end) cols prev = Some (t, tmp, cols1, bb) ->
+  print_arg_val_f (S (S fu)) o (match cv with CYes c _ => c | _ => a0 :: rest end) cols prev = Some (t, tmp, cols1, bb) ->
   exists its inc,
     bb = false /\ tmp = len t /\
     Z.of_nat inc = (match cv with CYes _ kk => kk | _ => next_arg_offset (a0 :: rest) end) /\
     (1 <= inc <= length (a0 :: rest))%nat /\
     iorig its = firstn inc (a0 :: rest) /\ iter_text prev its t /\
-    nth_error (a0 :: rest) (inc - 1) = ilast its.
+    nth_error (a0 :: rest) (inc - 1) = ilast its /\
+    (match cv with CYes _ _ => Z.of_nat inc <= size | _ => inc = 1%nat end) /\ first_notconf prev its.
 Proof.
-  intros Hg Hlen Hprev Hcv Hnu Hp.
-  pose proof (Forall_inv Hg) as Hg0. destruct (goodc_facts o zf zd a0 Hg0) as (Hs0 & _ & Hex0).
-  assert (Hsc : Forall scalar (a0 :: rest)) by (eapply Forall_impl; [|exact Hg]; intros a Ha; apply (goodc_facts o zf zd a Ha)).
-  assert (Hin : Forall (inrv zf zd) (a0 :: rest)) by (eapply Forall_impl; [|exact Hg]; intros a Ha; apply (goodc_facts o zf zd a Ha)).
+  intros Hg0 Hgr Hlen Hcv Hnu Hp.
+  destruct (goodc_facts o zf zd a0 Hg0) as (Hs0 & _ & Hex0).
+  assert (Hg : Forall (goodca o zf zd) (a0 :: rest)) by (constructor; [now left|exact Hgr]).
+  assert (Hsc : Forall sa (a0 :: rest)) by (eapply Forall_impl; [|exact Hg]; exact (goodca_sa o zf zd)).
+  assert (Hin : Forall (inrv zf zd) (a0 :: rest)) by (eapply Forall_impl; [|exact Hg]; exact (goodca_inrv o zf zd)).
   destruct cv as [|c kk|]; [| |congruence].
   - (* no conversion: one value *)
-    unfold print_arg_val in Hp. rewrite (pav_scalar o a0 rest cols prev 5 Hs0) in Hp.
+    rewrite (pav_scalar o a0 rest cols prev (S fu) Hs0) in Hp.
     destruct (print_scalar o a0 cols) as [[[t' w'] c']|] eqn:Eps; [|discriminate]. inversion Hp; subst.
     destruct (goodc_tok dec2f dec2d o zf zd a0 cols t tmp cols1 Hg0 Eps) as (Htk & Hnd & Hw).
     exists [IVal a0 t], 1%nat. split; [reflexivity|]. split; [exact Hw|].
     split; [destruct a0; cbn in Hs0; try contradiction; reflexivity|]. split; [cbn [length]; lia|].
-    split; [reflexivity|]. split; [split; [reflexivity|split; assumption]|reflexivity].
-  - destruct (range_expand_shape zf zd (proj1 Hz) (proj2 Hz) o (a0 :: rest) size c kk Hsc Hin Hex0 Hlen Hcv) as (n & -> & Hn5 & Hexp & Hshape).
+    split; [reflexivity|]. split; [split; [reflexivity|split; assumption]|]. split; [reflexivity|]. split; [reflexivity|exact I].
+  - destruct (range_expand_shape_sa zf zd (proj1 Hz) (proj2 Hz) o (a0 :: rest) size c kk Hsc Hin Hex0 Hlen Hcv) as (n & -> & Hn5 & Hexp & Hshape & Hle).
     destruct Hn5 as [Hn5 Hnl].
     destruct Hshape as [[[y Ec] Hrep]|(k & d & x & y & Ec & Hdr & Hhd & Hd0 & Hexj)]; subst c; cbn [hd] in *.
     + (* N x value *)
-      rewrite (print_range_const_eq (Z.of_nat n) a0 y cols prev ltac:(lia) Hs0) in Hp.
+      rewrite (print_range_const_eq fu (Z.of_nat n) a0 y cols prev ltac:(lia) Hs0) in Hp.
       destruct (print_scalar o a0 (cols + len (dec_nat (Z.of_nat n) ++ [120]))) as [[[t' w'] c']|] eqn:Eps;
         [|discriminate]. inversion Hp; subst.
       destruct (goodc_tok dec2f dec2d o zf zd a0 _ t' w' cols1 Hg0 Eps) as (Htk & Hnd & Hw).
@@ -1255,7 +1337,8 @@ Proof.
       split; [unfold iorig; cbn [map concat item_orig]; now rewrite app_nil_r, Nat2Z.id|].
       split.
       * cbn [iter_text item_text item_ok]. split; [now rewrite <- app_assoc|]. split; [lia|]. split; assumption.
-      * rewrite (nth_firstn (a0 :: rest) _ n (n - 1) Hrep) by lia. cbn [ilast rev app item_last].
+      * split; [|split; [exact Hle|exact I]].
+        rewrite (nth_firstn (a0 :: rest) _ n (n - 1) Hrep) by lia. cbn [ilast rev app item_last].
         clear -Hn5. assert (n = S (n - 1)) by lia. rewrite H at 1. cbn [repeat]. generalize (n - 1)%nat. intros m.
         induction m as [|m IH]; [reflexivity|exact IH].
     + (* a run with a step *)
@@ -1264,14 +1347,14 @@ Proof.
       assert (Hex : forall j, (j < n)%nat -> wr k (x + Z.of_nat j * d) = x + Z.of_nat j * d)
         by (intros j Hj; apply wr_id; apply (Hexj j Hj)).
       assert (Hsm : forall j, (j < n)%nat -> small_k k (wr k (x + Z.of_nat j * d))).
-      { intros j Hj. rewrite Hex by assumption. apply (goodc_mk o zf zd). eapply Forall_forall; [exact Hg|].
+      { intros j Hj. rewrite Hex by assumption. apply (goodc_mk o zf zd). apply goodca_mk. eapply Forall_forall; [exact Hg|].
         eapply nth_error_In. exact (proj1 (Hexj j Hj)). }
       set (last := x + (Z.of_nat n - 1) * d).
       assert (Hlast : wr k (x + (Z.of_nat n - 1) * d) = last).
       { replace (Z.of_nat n - 1) with (Z.of_nat (n - 1)) by lia. rewrite Hex by lia. unfold last. f_equal. f_equal. lia. }
       assert (Hsec : wr k (x + 1 * d) = x + d).
       { replace 1 with (Z.of_nat 1) by reflexivity. rewrite Hex by lia. lia. }
-      destruct (print_range_delta o k d x (Z.of_nat n) y cols prev last Hon ltac:(lia) Hd0 Hsec Hlast Hprev)
+      destruct (print_range_delta fu o k d x (Z.of_nat n) y cols prev last Hon ltac:(lia) Hd0 Hsec Hlast)
         as (sp & t' & c' & Hsp & Hpr & Hshape).
       rewrite Hpr in Hp. inversion Hp; subst t' tmp c' bb. clear Hp.
       assert (Hslast : small_k k last).
@@ -1286,13 +1369,13 @@ Proof.
         split; [reflexivity|]. split; [lia|]. split.
         { unfold iorig. cbn [map concat item_orig]. rewrite app_nil_r, Nat2Z.id, <- Hm.
           apply map_ext_in. intros j Hj. apply in_seq in Hj. now rewrite Hex by lia. }
-        split; [|exact Hnth].
+        split; [|split; [exact Hnth|split; [exact Hle|cbn [first_notconf]; unfold unit_step; split; [exact Hnc|split; [exact Hd1|lia]]]]].
         cbn [iter_text item_text item_ok]. split; [reflexivity|]. split; [|split; [exact Hsp|]].
         { unfold run_ok. split; [exact Hsx|]. split; [exact Hslast|]. split; [unfold last; lia|]. split; [lia|].
           split; [exact Hd0|]. split; [exact Hdr|].
           replace (last - x) with (Z.of_nat (n - 1) * d) by (unfold last; lia). apply (Hexj (n - 1)%nat). lia. }
         unfold ctx_ok, unit_step. destruct prev as [p|]; [|split; [assumption|lia]].
-        rewrite (types_match_kind p k x (Hprev p eq_refl)). cbn [notconf] in Hnc.
+        rewrite (types_match_kind' p k x). cbn [notconf] in Hnc.
         destruct Hnc as [Hne| ->].
         -- replace (av_type p =? av_type (mk k x)) with false by (symmetry; now apply Z.eqb_neq). split; [assumption|lia].
         -- rewrite Z.eqb_refl. exists x. split; [reflexivity|]. left. split; [reflexivity|]. split; [assumption|lia].
@@ -1304,7 +1387,7 @@ Proof.
           clear - Hn5. destruct n as [|m]; [lia|]. replace (Z.to_nat (Z.of_nat (S m) - 1)) with m by lia.
           cbn [seq map app]. f_equal; [f_equal; lia|].
           rewrite <- seq_shift, map_map. apply map_ext. intros j. f_equal. lia. }
-        split; [|exact Hnth].
+        split; [|split; [exact Hnth|split; [exact Hle|exact I]]].
         cbn [iter_text item_text item_ok item_last]. split; [reflexivity|].
         assert (Hsxd : small_k k (x + d)).
         { specialize (Hsm 1%nat ltac:(lia)). rewrite Hex in Hsm by lia. now replace (x + Z.of_nat 1 * d) with (x + d) in Hsm by lia. }
@@ -1316,6 +1399,25 @@ Proof.
         unfold ctx_ok. rewrite (types_match_kind (mk k x) k (x + d)) by now destruct k.
         replace (av_type (mk k x) =? av_type (mk k (x + d))) with true by (destruct k; reflexivity).
         exists x. split; [reflexivity|]. right. split; lia.
+Qed.
+
+Lemma print_iter a0 rest size prev t tmp cols cols1 bb cv :
+  Forall (goodc o zf zd) (a0 :: rest) -> Z.of_nat (length (a0 :: rest)) < 2 ^ 31 ->
+  (forall p, prev = Some p -> scalar p) ->
+  convert_to_range o (a0 :: rest) size = cv -> cv <> CUnmod ->
+  print_arg_val o (match cv with CYes c _ => c | _ => a0 :: rest end) cols prev = Some (t, tmp, cols1, bb) ->
+  exists its inc,
+    bb = false /\ tmp = len t /\
+    Z.of_nat inc = (match cv with CYes _ kk => kk | _ => next_arg_offset (a0 :: rest) end) /\
+    (1 <= inc <= length (a0 :: rest))%nat /\
+    iorig its = firstn inc (a0 :: rest) /\ iter_text prev its t /\
+    nth_error (a0 :: rest) (inc - 1) = ilast its.
+Proof.
+  intros Hg Hlen _ Hcv Hnu Hp.
+  destruct (print_iter_sa 4 a0 rest size prev t tmp cols cols1 bb cv (Forall_inv Hg)) as (its & inc & A & B & C & D & E & F & G & _);
+    try assumption.
+  - eapply Forall_impl; [|exact (Forall_inv_tail Hg)]. intros a Ha. now left.
+  - exists its, inc. auto 10.
 Qed.
 
 Fixpoint iseq_from (pend : bool) (p : option av) (its : list item) (sfx : list Z) : Prop :=
